@@ -138,6 +138,9 @@ func (s *Stream) Token() (interface{}, error) {
 			s.cursor++
 		case '-', '0', '1', '2', '3', '4', '5', '6', '7', '8', '9':
 			bytes := floatBytes(s)
+			if !validNumber(bytes) {
+				return nil, errInvalidNumber(bytes, s.totalOffset())
+			}
 			str := *(*string)(unsafe.Pointer(&bytes))
 			if s.UseNumber {
 				return json.Number(str), nil
